@@ -776,6 +776,62 @@ func burstRound(backend string, s kvs.Storage, seed int64) *frFinding {
 
 // ------------------------------------------------------------------ driver
 
+// longPark (Redis): a waiter is parked for a long time before its key changes. The polling backend must
+// still notice the change promptly - its poll interval may not grow with the time spent waiting. Bound 1 s
+// (healthy: < 0.1 s), guarded by a stall canary.
+func longPark(park time.Duration) (sig, what string, stall time.Duration, inconclusive string) {
+	rs, err := kvmodel.NewRedisServer()
+	if err != nil {
+		return "", "", 0, "miniredis: " + err.Error()
+	}
+	defer rs.Close()
+	bg := context.Background()
+	r0, err := rs.S.Put(bg, kvs.Record{Key: "lp", Value: []byte("0")})
+	if err != nil {
+		return "", "", 0, "redis Put: " + err.Error()
+	}
+	var worst atomic.Int64
+	stop := make(chan struct{})
+	go func() {
+		for {
+			select {
+			case <-stop:
+				return
+			default:
+			}
+			t := time.Now()
+			time.Sleep(2 * time.Millisecond)
+			if o := int64(time.Since(t) - 2*time.Millisecond); o > worst.Load() {
+				worst.Store(o)
+			}
+		}
+	}()
+	defer func() { close(stop); stall = time.Duration(worst.Load()) }()
+	res := make(chan error, 1)
+	go func() { res <- rs.S.WaitForVersionChange(bg, "lp", r0.Version) }()
+	select {
+	case e := <-res:
+		return "redis/wait/returned-without-change", fmt.Sprintf("a waiter on the current version returned %v although nothing changed", e), 0, ""
+	case <-time.After(park):
+	}
+	t0 := time.Now()
+	if _, err := rs.S.Put(bg, kvs.Record{Key: "lp", Value: []byte("1")}); err != nil {
+		return "", "", 0, "redis Put: " + err.Error()
+	}
+	select {
+	case e := <-res:
+		if e != nil {
+			return "redis/wait/long-park-wrong-result", fmt.Sprintf("waiter returned %v after the key was overwritten", e), 0, ""
+		}
+		if d := time.Since(t0); d > time.Second {
+			return "redis/wait/late-after-long-park", fmt.Sprintf("a waiter that had been parked for %v returned %v after the change (healthy < 0.1 s, bound 1 s)", park, d), 0, ""
+		}
+	case <-time.After(30 * time.Second):
+		return "redis/wait/late-after-long-park", fmt.Sprintf("a waiter that had been parked for %v has not returned 30 s after the change", park), 0, ""
+	}
+	return "", "", 0, ""
+}
+
 const burstsPerRound = 60
 
 func TestCheck(t *testing.T) {
@@ -787,7 +843,7 @@ func TestCheck(t *testing.T) {
 		}
 		run.Finish(t)
 	})
-	run.Rule("scripted: every legal script to the depth bound over {start waiter (key1 cur/stale/unknown, key2 cur; <=3 alive), cancel waiter i, cancel+Put+newcomer without quiescence in between, start+Put without quiescence, Put k1/k2, PutMany k1 / k1+k2, CAS ok, CAS conflict, Delete k1/k2, Create, Put with an expiry, clock +1 h (nobody touches the store)} from 2 initial states, in a synctest bubble; after EVERY event quiescence, then each waiter must be exactly parked / nil / ErrNotExist / ctx error per model and the waiter table must equal the parked set; free-running: 3 writers + 6 waiters + cancellers on 2 keys per round, waiter returns checked by porcupine as read-like operations, final mutation must release all; burst rounds: 4-16 waiters on the current version start together with one mutation and must all return. distinct = distinct (event kind, parked-waiter multiset, number of present keys) classes observed at quiescent points + distinct free-running rounds")
+	run.Rule("scripted: every legal script to the depth bound over {start waiter (key1 cur/stale/unknown, key2 cur; <=3 alive), cancel waiter i, cancel+Put+newcomer without quiescence in between, start+Put without quiescence, Put k1/k2, PutMany k1 / k1+k2, CAS ok, CAS conflict, Delete k1/k2, Create, Put with an expiry, clock +1 h (nobody touches the store)} from 2 initial states, in a synctest bubble; after EVERY event quiescence, then each waiter must be exactly parked / nil / ErrNotExist / ctx error per model and the waiter table must equal the parked set; free-running: 3 writers + 6 waiters + cancellers on 2 keys per round, waiter returns checked by porcupine as read-like operations, final mutation must release all; burst rounds: 4-16 waiters on the current version start together with one mutation and must all return; Redis long-park: a waiter parked 3.2 s (6.5 s thorough) must notice the change within 1 s. distinct = distinct (event kind, parked-waiter multiset, number of present keys) classes observed at quiescent points + distinct free-running rounds")
 	run.Assume("scripted part: virtual time that only moves at the explicit clock event")
 	run.Assume("free-running 'never misses' uses a 20 s watchdog against a healthy release time of microseconds (inmem) / <=100 ms (Redis polling)")
 
@@ -802,6 +858,38 @@ func TestCheck(t *testing.T) {
 		classes[c] = struct{}{}
 	}
 
+	var lpwg sync.WaitGroup
+	parks := []time.Duration{3200 * time.Millisecond}
+	if run.Thorough() {
+		parks = append(parks, 6500*time.Millisecond, 1500*time.Millisecond)
+	}
+	for _, park := range parks {
+		lpwg.Add(1)
+		go func(park time.Duration) {
+			defer lpwg.Done()
+			for attempt := 1; ; attempt++ {
+				sig, what, stall, inc := longPark(park)
+				if inc != "" {
+					run.Inconclusive(inc)
+					return
+				}
+				if sig == "redis/wait/late-after-long-park" && stall > 250*time.Millisecond {
+					if attempt < 3 {
+						continue
+					}
+					run.Inconclusive(fmt.Sprintf("%s (canary stall %v)", what, stall))
+					return
+				}
+				run.Eval(1)
+				run.Add("redis_long_park_scenarios", 1)
+				if sig != "" {
+					run.Violation(sig, what, map[string]any{"scenario": "long-park", "backend": "redis", "park": park.String()})
+				}
+				return
+			}
+		}(park)
+	}
+	defer lpwg.Wait()
 	t.Run("free", func(t *testing.T) {
 		for _, backend := range []string{"inmem", "redis"} {
 			n := run.Pick(400, 20000)
